@@ -225,6 +225,9 @@ var restoreCmd = &cobra.Command{
 
 					continue
 				}
+				if err != nil {
+					return fmt.Errorf("fail to get file info '%s': %w", arg, err)
+				}
 
 				if f.IsDir() { // directory
 					filePaths, err := file.GetFilePathsUnderDirectory(argAbsPath)
@@ -309,6 +312,9 @@ var restoreCmd = &cobra.Command{
 					}
 
 					continue
+				}
+				if err != nil {
+					return fmt.Errorf("fail to get file info '%s': %w", arg, err)
 				}
 
 				if f.IsDir() { // directory
